@@ -228,7 +228,7 @@ func verifGenMessage(r *vrand.Rand, c uint32, cap int) verifMsg {
 		return m
 	}
 	n := verifGenLen(r, c, cap)
-	m.Payload = r.Bytes(n)
+	m.Payload = r.Shaped(n) // opaque to RTMP: half of the payloads look like chunk headers, AMF0, FLV, start codes
 	return m
 }
 
